@@ -35,7 +35,7 @@ def crash_scripts(rnd, quick):
             if ln >= 1:
                 stores.append(('storep %d %d %s' % (off, ln, ' '.join(map(str, new[off:off + ln]))), ln))
         sc = []
-        mb = mbase(rnd, msize)
+        mb = mbase(rnd, head)
         for st, ln in stores:
             for cut in range(0, 4):
                 for torn in sorted(set(range(0, max(ln, width) + 1))):
@@ -55,7 +55,7 @@ def fault_scripts(rnd, quick):
                'storep 0 1 %d' % img2[0], 'storep %d 1 %d' % (n - 1, img2[-1]),
                'validate', 'fetch', 'fetchp 0 1', 'reset 255']
         sc = []
-        mb = mbase(rnd, msize)
+        mb = mbase(rnd, head)
         for op in ops:
             for k in range(1, n + 5):
                 for kind in (1, 2):
